@@ -8,8 +8,9 @@
 using namespace Qentem;
 typedef Value<char> V; typedef Array<V> AT; typedef unsigned long long u64; typedef long long i64; typedef ValueType T;
 
-// class of an operand X in {A,B,C}: X_K kind (numeric ValueType: 0 Undefined 1 ValuePtr 3 Array 4 String 5 UIntLong 6 IntLong
-// 7 Double 8 True 9 False 10 Null), X_LEN string length, X_N member count, X_TK target kind of a pointer
+// class of an operand X in {A,B,C}: X_K kind (numeric ValueType: 0 Undefined 1 ValuePtr 2 Object 3 Array 4 String 5 UIntLong 6 IntLong
+// 7 Double 8 True 9 False 10 Null), X_LEN string length, X_N member count (arrays: unsigned members; objects: members under
+// the keys "a", "b"; X_N = 12: two members of which the first was removed again), X_TK target kind of a pointer
 #ifndef A_K
 #define A_K 5
 #endif
@@ -75,6 +76,14 @@ template <int K, int LEN, int N> static V *mk_direct(Slot &slot, Val &o) {
         if (LEN > 1) o.s[1] = c[1];
         return new (raw) V((const char *)&c[0], SizeT(LEN));
     }
+    if (K == 2) {    // Object: the operators look at the slot count only (a removed member still counts until it is dropped)
+        o.n = (N == 12) ? 2 : N;
+        V *v = new (raw) V(T::Object);
+        if (N > 0) (*v)["a"] = x;
+        if (N > 1) (*v)["b"] = u64(c[0]);
+        if (N == 12) v->Remove("a");
+        return v;
+    }
     // Array of N unsigned members (the operators look at the size only)
     o.n = N;
     V *v = new (raw) V(T::Array);
@@ -110,7 +119,8 @@ static int ref_same(int k, const Val &a, const Val &b) {
         case 6: return (i64(a.bits) < i64(b.bits)) ? -1 : ((i64(a.bits) > i64(b.bits)) ? 1 : 0);
         case 7: return (b2d(a.bits) < b2d(b.bits)) ? -1 : ((b2d(a.bits) > b2d(b.bits)) ? 1 : 0);
         case 4: return ref_str(a, b);
-        case 3: return (a.n < b.n) ? -1 : ((a.n > b.n) ? 1 : 0);       // containers are ordered by their size (as documented in the code)
+        case 2:
+        case 3: return (a.n < b.n) ? -1 : ((a.n > b.n) ? 1 : 0);       // containers are ordered by their size only (as implemented)
         default: return 0;                                               // Undefined, True, False, Null: equal to themselves
     }
 }
